@@ -53,6 +53,24 @@ def bfs(factory, ops, depth, run, label="", budget_s=None, seen=None,
              'depth_completed': 0, 'outcomes': set(), 'capped': False,
              'outcome_hist': {}}
     nops = len(_OPS)
+    # determinism self-check: the same (history, op) pairs executed twice,
+    # in two separate child processes, must reach the same canonical states
+    # with the same outcomes; otherwise nothing this run reports is trusted
+    probe = ((), list(range(min(3, nops))))
+    a = runner.in_child(_expand, probe)
+    b = runner.in_child(_expand, probe)
+    if [(x[0], x[1], x[3]) for x in a] != [(x[0], x[1], x[3]) for x in b]:
+        raise runner.HarnessFault(
+            f"{label}: harness nondeterministic - the same operations gave "
+            "different states/outcomes in two runs")
+    if depth >= 2 and a:
+        probe2 = ((a[0][0],), list(range(min(2, nops))))
+        a2 = runner.in_child(_expand, probe2)
+        b2 = runner.in_child(_expand, probe2)
+        if [(x[0], x[1], x[3]) for x in a2] != [(x[0], x[1], x[3])
+                                                 for x in b2]:
+            raise runner.HarnessFault(
+                f"{label}: harness nondeterministic at depth 2")
     for d in range(1, depth + 1):
         items = []
         for hist in frontier:
